@@ -283,7 +283,7 @@ func runC15(c *core.Ctx, res *core.Result) {
 	nops := r.Range(800, 1600)
 	var done atomic.Int64
 	var worst atomic.Int64
-	var werrs atomic.Int64
+	var werrs, busyErrs atomic.Int64
 	var firstErr atomic.Value
 	finished := make(chan struct{})
 	go func() {
@@ -319,7 +319,9 @@ func runC15(c *core.Ctx, res *core.Result) {
 			if int64(d) > worst.Load() {
 				worst.Store(int64(d))
 			}
-			if err != nil {
+			if kv.IsEngineBusy(err) {
+				busyErrs.Add(1) // the engine's own give-up (log in rotation longer than its retries): not caused by a replica
+			} else if err != nil {
 				werrs.Add(1)
 				firstErr.CompareAndSwap(nil, err.Error())
 			}
@@ -354,6 +356,7 @@ loop:
 	fwg.Wait()
 	res.Count("peer_sessions_flapped", flaps.Load())
 	res.Count("client_calls", int64(nops))
+	res.Count("client_calls_refused_engine_busy", busyErrs.Load())
 	res.Count("kb_written", int64(nops*vsz/1024))
 	if w := time.Duration(worst.Load()); w > 5*time.Second {
 		res.Violate("primary_call_slow", fmt.Sprintf("%s: one client call took %s (fault-free latency %.2f ms)", desc, w, float64(baseline)/1e6), feat)
